@@ -1,6 +1,7 @@
 import BobEM.Model.Sched
 import BobEM.Lemmas.Sched
 import BobEM.Lemmas.Iso
+import BobEM.Lemmas.SumDag
 import BobEM.Props.C02
 import BobEM.Props.C06
 
@@ -145,4 +146,29 @@ example : disciplined [⟨1, [], [0], [1]⟩, ⟨2, [], [0], [2]⟩, ⟨3, [], [
   decide
 /-- and a graph in which a reader also writes the shared location is rejected -/
 example : firstConflict [⟨1, [], [0], [0, 1]⟩, ⟨2, [], [0], [2]⟩, ⟨4, [1, 2], [0, 1, 2], [0, 4]⟩] = some (1, 2) := by
+  decide
+
+/-- **every block's statistics enter each M-step exactly once** — for any shape of the reduction
+between the per-block E-step tasks (`workers`) and the M-step (`final`): a recorded graph that is in
+dependency order and passes the executable `exactlyOnce` check delivers exactly `Σ_w (result of w)`,
+each worker once, none dropped, none twice, provided every task in between adds up its dependencies
+(`M` is any commutative monoid: the statistics with their `+`) -/
+theorem C04_blocks_exactly_once {M : Type} [AddCommMonoid M] (g : List TaskEff) (final : ℕ) (workers : List ℕ)
+    (result : ℕ → M) (ht : topoOrdered g = true) (he : exactlyOnce g final workers = true) (fuel : ℕ)
+    (hf : g.length < fuel) :
+    dagVal (depsOf g) (fun x => workers.contains x) result fuel final = ∑ w ∈ workers.toFinset, result w :=
+  exactlyOnce_sound g final workers result ht he fuel hf
+
+/-- non-vacuity: three E-step tasks handed to the M-step as one list (the GMM / k-means shape), and a
+pairwise tree over three E-step tasks with the unpaired one carried over (the i-vector shape), pass -/
+example : topoOrdered [⟨1, [], [0], [1]⟩, ⟨2, [], [0], [2]⟩, ⟨3, [], [0], [3]⟩, ⟨4, [1, 2, 3], [0, 1, 2, 3], [0, 1, 4]⟩] = true
+    ∧ exactlyOnce [⟨1, [], [0], [1]⟩, ⟨2, [], [0], [2]⟩, ⟨3, [], [0], [3]⟩, ⟨4, [1, 2, 3], [0, 1, 2, 3], [0, 1, 4]⟩] 4 [1, 2, 3] = true := by
+  decide
+example : exactlyOnce [⟨1, [], [], [1]⟩, ⟨2, [], [], [2]⟩, ⟨3, [], [], [3]⟩, ⟨4, [1, 2], [1, 2], [4]⟩, ⟨5, [4, 3], [4, 3], [5]⟩, ⟨6, [5], [5], [6]⟩] 6 [1, 2, 3] = true := by
+  decide
+/-- a reduction that forms groups over `range(0, length - 1, 2)` drops the last of three workers; a
+reduction that pairs a worker with itself counts it twice: both are rejected, with the count -/
+example : firstMiscount [⟨1, [], [], [1]⟩, ⟨2, [], [], [2]⟩, ⟨3, [], [], [3]⟩, ⟨4, [1, 2], [1, 2], [4]⟩, ⟨6, [4], [4], [6]⟩] 6 [1, 2, 3] = some (3, 0) := by
+  decide
+example : firstMiscount [⟨1, [], [], [1]⟩, ⟨2, [], [], [2]⟩, ⟨4, [1, 2], [1, 2], [4]⟩, ⟨5, [4, 2], [4, 2], [5]⟩, ⟨6, [5], [5], [6]⟩] 6 [1, 2] = some (2, 2) := by
   decide
